@@ -22,6 +22,85 @@ ALPHABET = b"123456789ABCDEFGHJKLMNPQRSTUVWXYZabcdefghijkmnopqrstuvwxyz"
 B58 = "bits.base58."
 
 
+
+PH = tm.bv(97, tm.INT)  # placeholder for "the current digit"
+
+
+def _empty(v):
+    return v in (b"", "") or v == [] or (isinstance(v, T) and v.op == "app" and v.args[0] in ("bytearray", "builtins.bytearray") and not v.args[1]) or \
+        (isinstance(v, tuple) and v in (("#list",), ("#tuple",)))
+
+
+def _byte_elem(e):
+    """The integer value of a one-byte element: ALPHABET[d:d+1] -> ALPHABET[d]; i2b(x, 1) -> x; an int term stays."""
+    if isinstance(e, T) and e.op == "slice" and isinstance(e.args[0], bytes):
+        lo, hi = e.args[1], e.args[2]
+        if tm.veq(hi, tm.add([1, lo])):
+            return tm.idx(e.args[0], lo)
+    if isinstance(e, T) and e.op == "i2b" and e.args[1] == 1:
+        return e.args[0]
+    return e
+
+
+def digit_stream(v):
+    """(n0, base, element as a term in PH, 'msb' | 'lsb') if v is the sequence of base-B digits of n0 mapped through an element
+    function -- however it is produced: prepending bytes, appending to a list / bytearray / generator and reversing, mapping,
+    or int.to_bytes with the minimal length. None otherwise."""
+    v = rules.unfz(v)
+    if isinstance(v, T) and v.op == "rev":
+        st = digit_stream(v.args[0])
+        return (st[0], st[1], st[2], "lsb" if st[3] == "msb" else "msb") if st else None
+    if isinstance(v, T) and v.op == "tobytes":
+        return digit_stream(v.args[0])
+    if isinstance(v, T) and v.op == "map" and (len(v.args) < 3 or v.args[2] is None):
+        st = digit_stream(v.args[1])
+        if not st:
+            return None
+        body = rules.unfz(v.args[0])
+        bvs = sorted({t.args[0] for t in tm.subterms(body) if isinstance(t, T) and t.op == "bv"})
+        if len(bvs) != 1:
+            return None
+        return (st[0], st[1], _byte_elem(tm.subst(body, lambda t: st[2] if isinstance(t, T) and t.op == "bv" and t.args[0] == bvs[0] else None)), st[3])
+    if isinstance(v, T) and v.op == "i2b" and v.args[2] == "big":
+        n0 = v.args[0]
+        if tm.veq(v.args[1], tm.binop("floordiv", tm.add([7, T("bitlen", (n0,), tm.INT)]), 8)):
+            return (n0, 256, PH, "msb")
+        return None
+    if isinstance(v, T) and v.op == "loopout" and v.args[1] == "while":
+        var, kind, cond, body_items, init_items, d = v.args
+        body, init = dict((k, rules.unfz(x)) for k, x in body_items), dict((k, rules.unfz(x)) for k, x in init_items)
+        nv = None
+        for k, x in body.items():
+            a = T("acc", (k, d), tm.INT)
+            if isinstance(x, T) and x.op == "floordiv" and tm.veq(x.args[0], a) and isinstance(x.args[1], int):
+                nv, B = k, x.args[1]
+        if nv is None or not _empty(init.get(var)):
+            return None
+        a = T("acc", (nv, d), tm.INT)
+        if not any(tm.veq(cond, c) for c in (tm.truth(a), tm.cmp("gt", a, 0), tm.cmp("ne", a, 0), tm.cmp("ge", a, 1))):
+            return None
+        digit = tm.mod(a, B)
+        bv_ = rules.unfz(body.get(var))
+        accl, accb = T("acc", (var, d), tm.LIST), T("acc", (var, d), tm.BYTES)
+        elem, order = None, None
+        if isinstance(bv_, T) and bv_.op in ("cat", "lcat") and len(bv_.args) == 2:
+            x0, x1 = rules.unfz(bv_.args[0]), rules.unfz(bv_.args[1])
+            if isinstance(x1, T) and x1.op == "acc" and x1.args[0] == var:
+                elem, order = x0, "msb"   # prepended: most significant digit ends up first
+            elif isinstance(x0, T) and x0.op == "acc" and x0.args[0] == var:
+                elem, order = x1, "lsb"   # appended: least significant digit first
+        if elem is None:
+            return None
+        if isinstance(elem, (list, tuple)) and len(elem) == 1:
+            elem = elem[0]
+        elem = _byte_elem(rules.unfz(elem))
+        elem = tm.subst(elem, lambda t: PH if tm.veq(t, digit) else None) if not tm.veq(elem, digit) else PH
+        if tm.contains(elem, lambda t: isinstance(t, T) and t.op == "acc"):
+            return None
+        return (init.get(nv), B, elem, order)
+    return None
+
+
 def run(ctx):
     R = ctx.R
     ev = ctx.evaluator()
@@ -44,30 +123,9 @@ def run(ctx):
         tm.veq(rets[0].value.args[0], tm.rep(ALPHABET[0:1], zeros))
     R.check("C07.1", "TERM-EQ", fe, "encode: one '1' per leading zero byte", ok, "base58encode prefix: %s" % (tm.show(rets[0].value)[:200] if rets else None),
             example="data with leading zero bytes")
-    loops = [lp for lp in s.loops if lp.func == fe.qualname and lp.kind == "while"]
-    okl = False
-    if len(loops) == 1:
-        lp = loops[0]
-        iv = [v for v, init in lp.init.items() if tm.veq(init, tm.b2i(stripped, "big")) or tm.veq(init, tm.b2i(data, "big"))]
-        if len(iv) == 1:
-            acc = T("acc", (iv[0], lp.depth), tm.INT)
-            digit = tm.mod(acc, 58)
-            # the value is a non-negative integer: `while n`, `while n > 0`, `while n != 0` are one condition
-            okcond = any(tm.veq(lp.cond, c) for c in (tm.truth(acc), tm.cmp("gt", acc, 0), tm.cmp("ne", acc, 0), tm.cmp("ge", acc, 1)))
-            okdiv = tm.veq(lp.body.get(iv[0]), tm.binop("floordiv", acc, 58))
-            # idiom 1: bytes accumulator, each digit's character PREPENDED
-            ev_ = [v for v, init in lp.init.items() if init == b""]
-            pre = len(ev_) == 1 and tm.veq(lp.body.get(ev_[0]), tm.cat([tm.slc(ALPHABET, digit, tm.add([1, digit])), T("acc", (ev_[0], lp.depth), tm.BYTES)]))
-            tail = rets[0].value.args[1] if ok else None
-            pre = pre and isinstance(tail, T) and tail.op == "loopout" and tail.args[0] == ev_[0]
-            # idiom 2: list accumulator, each digit's character code APPENDED, then reversed and converted with bytes()
-            lv = [v for v, init in lp.init.items() if init == []]
-            app = len(lv) == 1 and tm.veq(lp.body.get(lv[0]), tm.lcat([T("acc", (lv[0], lp.depth), tm.LIST), [tm.idx(ALPHABET, digit)]]))
-            if app:
-                app = isinstance(tail, T) and tail.op == "tobytes" and isinstance(rules.unfz(tail.args[0]), T) and rules.unfz(tail.args[0]).op == "rev" and \
-                    isinstance(rules.unfz(rules.unfz(tail.args[0]).args[0]), T) and rules.unfz(rules.unfz(tail.args[0]).args[0]).op == "loopout" and \
-                    rules.unfz(rules.unfz(tail.args[0]).args[0]).args[0] == lv[0]
-            okl = okcond and okdiv and (pre or app)
+    tail = rets[0].value.args[1] if ok else None
+    st = digit_stream(tail) if tail is not None else None
+    okl = st is not None and (tm.veq(st[0], tm.b2i(stripped, "big")) or tm.veq(st[0], tm.b2i(data, "big"))) and st[1] == 58 and st[3] == "msb" and tm.veq(st[2], tm.idx(ALPHABET, PH))
     R.check("C07.1", "TERM-EQ", fe, "encode: digits = repeated divmod by 58, most significant first, through the alphabet", okl,
             "the radix-58 loop of base58encode differs (radix constant, digit order or alphabet indexing)")
     for inp, want in ((b"", b""), (b"\x00", b"1"), (b"\x00\x00", b"11"), (b"\x00" * 5, b"11111")):
@@ -83,45 +141,41 @@ def run(ctx):
     okp = len(rets) == 1 and isinstance(rets[0].value, T) and rets[0].value.op == "cat" and len(rets[0].value.args) == 2 and \
         tm.veq(rets[0].value.args[0], tm.rep(b"\x00", ones))
     R.check("C07.1", "TERM-EQ", fd, "decode: one zero byte per leading '1'", okp, "base58decode prefix: %s" % (tm.show(rets[0].value)[:200] if rets else None))
-    # value accumulation: sum(lookup(MAP, c) * 58**i for i, c in enumerate(reversed(stripped)))
+    # value accumulation: sum(lookup(MAP, c) * 58**i for i, c in enumerate(reversed(stripped))), or Horner's rule over the
+    # remainder read forwards -- judged on the value term the byte conversion starts from
     amap = {c: i for i, c in enumerate(ALPHABET)}
-    look = T("lookup", (tm.freeze(amap), tm.bv(0, tm.INT)), tm.ANY)
-    term1 = T("sum", (tm.mapt(tm.mul([look, tm.binop("pow", 58, T("bvi", (0,), tm.INT))]), T("enumerate", (T("rev", (strip1,), tm.BYTES),), tm.LIST)),), tm.INT)
-    # or Horner's rule over the remainder read forwards: value = fold(58 * value + digit(c))
-    hacc = None
-    term2 = None
-    for lp in s.loops:
-        if lp.func == fd.qualname and lp.kind == "for" and tm.veq(lp.iter, strip1):
-            for var, val in lp.body.items():
-                a_ = T("acc", (var, lp.depth), tm.INT)
-                if lp.init.get(var) == 0 and tm.veq(val, tm.add([tm.mul([58, a_]), T("lookup", (tm.freeze(amap), tm.bv(lp.depth, tm.INT)), tm.ANY)])):
-                    term2 = [t for e in rets for t in tm.subterms(e.value) if isinstance(t, T) and t.op == "fold" and t.args[0] == var]
-                    term2 = term2[0] if term2 else None
+
+    def norm_strip(t):
+        # data[len(data) - len(data.lstrip(c)):] is data.lstrip(c)
+        if isinstance(t, T) and t.op == "slice" and t.args[2] is None and tm.veq(rules.unfz(t.args[0]), data) and tm.veq(t.args[1], ones):
+            return strip1
+        return None
+
+    def is_value(n0):
+        n0 = tm.subst(n0, norm_strip)
+        look = lambda b_: T("lookup", (tm.freeze(amap), b_), tm.ANY)
+        forms = [T("sum", (tm.mapt(tm.mul([look(tm.bv(0, tm.INT)), tm.binop("pow", 58, T("bvi", (0,), tm.INT))]), T("enumerate", (T("rev", (strip1,), tm.BYTES),), tm.LIST)),), tm.INT)]
+        if any(tm.veq(n0, f) for f in forms):
+            return True
+        if isinstance(n0, T) and n0.op == "fold" and n0.args[2] == 0 and tm.veq(rules.unfz(n0.args[3]), strip1):
+            var, step, d = n0.args[0], rules.unfz(n0.args[1]), n0.args[4]
+            a_ = T("acc", (var, d), tm.INT)
+            return tm.veq(step, tm.add([tm.mul([58, a_]), look(tm.bv(d, tm.INT))]))
+        return False
+    tail = rets[0].value.args[-1] if okp else None
+    st = digit_stream(tail) if tail is not None else None
+    okv = st is not None and is_value(st[0])
     value_terms = [t for e in rets for t in tm.subterms(e.value) if isinstance(t, T) and t.op in ("sum", "fold")]
-    okv = any(tm.veq(t, term1) for t in value_terms) or term2 is not None
-    if not any(tm.veq(t, term1) for t in value_terms) and term2 is not None:
-        term1 = term2
     R.check("C07.1", "TERM-EQ", fd, "decode: value = sum(digit(c) * 58^i) over the reversed remainder (or Horner's rule over the remainder)", okv,
-            "the radix-58 accumulation of base58decode differs: %s" % (tm.show(value_terms[0])[:300] if value_terms else "no sum / fold term"))
+            "the radix-58 accumulation of base58decode differs: %s" % (tm.show(st[0])[:300] if st else (tm.show(value_terms[0])[:300] if value_terms else "no value term")))
+    term1 = st[0] if st else None
     # alphabet enforcement: a raising lookup keyed by exactly the alphabet
     look_h = [h for h in s.hazards if h[0] == "KeyError" and isinstance(h[1], T) and h[1].op == "lookup" and rules.unfz(h[1].args[0]) == amap]
     R.check("C07.3", "DOM", fd, "every character passes a raising lookup keyed by the alphabet", bool(look_h),
             "characters are not mapped through a raising lookup over exactly the alphabet (a defaulting/positional lookup accepts foreign characters)",
             example="a valid string with '0' or 'l' substituted in")
-    # bytes conversion
-    loops = [lp for lp in s.loops if lp.func == fd.qualname and lp.kind == "while"]
-    okb = False
-    if len(loops) == 1:
-        lp = loops[0]
-        rv = [v for v, init in lp.init.items() if tm.veq(init, term1)]
-        dv = [v for v, init in lp.init.items() if init == b""]
-        if len(rv) == 1 and len(dv) == 1:
-            acc = T("acc", (rv[0], lp.depth), tm.INT)
-            okb = tm.veq(lp.cond, tm.truth(acc)) and tm.veq(lp.body.get(rv[0]), tm.binop("floordiv", acc, 256)) and \
-                tm.veq(lp.body.get(dv[0]), tm.cat([tm.i2b(tm.mod(acc, 256), 1, "big"), T("acc", (dv[0], lp.depth), tm.BYTES)]))
-    elif rets and isinstance(rets[0].value, T) and rets[0].value.op == "cat":
-        tail = rets[0].value.args[-1]
-        okb = tm.veq(tail, tm.i2b(term1, tm.binop("floordiv", tm.add([7, T("bitlen", (term1,), tm.INT)]), 8), "big"))
+    # bytes conversion: the base-256 digits of that value, most significant first (divmod loop, generator, or to_bytes((bits+7)//8))
+    okb = st is not None and st[1] == 256 and st[3] == "msb" and tm.veq(st[2], PH)
     R.check("C07.1", "TERM-EQ", fd, "decode: bytes = minimal big-endian form of the value (divmod 256 loop or to_bytes((bits+7)//8))", okb,
             "the value is not converted to its minimal big-endian bytes", example="strings whose numeric value is zero")
     for inp, want in ((b"", b""), (b"1", b"\x00"), (b"11", b"\x00\x00"), (b"1111", b"\x00" * 4)):
@@ -161,15 +215,28 @@ def run(ctx):
                 "base58check_decode refuses every string that decodes to %d bytes (payload of %d bytes), whatever its checksum" % (L, L - 4),
                 example="base58check(b'') = 3QJmnh" if L == 4 else "a %d-byte payload" % (L - 4))
     evo.bind = {}
-    # ---- classifier
+    # ---- classifier (base58decode opaque: the verdict must hinge on the checksum comparison, whoever performs it)
     fi = ctx.fn(B58 + "is_base58check")
-    s = ev.run(fi)
-    R.check("C07.4", "EXC", fi, "is_base58check catches every exception", not s.raises() and any(
-        tm.contains(g, lambda t: isinstance(t, T) and t.op == "except" and ("Exception" in t.args[0] or "BaseException" in t.args[0])) for e in s.returns() for g in e.guard),
+    s = evo.run(fi)
+    dat = P(fi.params()[0], tm.BYTES)
+    decd = tm.app(B58 + "base58decode", [dat], ty=tm.BYTES)
+    pay_, ck_ = tm.slc(decd, None, -4), tm.slc(decd, -4, None)
+    eq_forms = [tm.cmp("eq", ck_, tm.slc(H2(pay_), None, 4)), tm.cmp("eq", tm.slc(H2(pay_), None, 4), ck_)]
+    ne_forms = [tm.lnot(f) for f in eq_forms]
+    catches = not s.raises() and any(tm.contains(g, lambda t: isinstance(t, T) and t.op == "except" and ("Exception" in t.args[0] or "BaseException" in t.args[0]))
+                                     for e in s.returns() for g in list(e.guard) + list(e.facts) + [e.value])
+    R.check("C07.4", "EXC", fi, "is_base58check catches every exception", catches,
             "is_base58check can raise instead of returning False", example="a non-alphabet character")
-    vals = {repr(e.value) for e in s.returns()}
-    R.check("C07.4", "EXC", fi, "is_base58check returns booleans", vals == {"True", "False"}, "is_base58check returns %s" % sorted(vals))
-    tr = [e for e in s.returns() if e.value is True]
-    R.check("C07.4", "DOM", fi, "True only when base58check_decode succeeded", bool(tr) and all(
-        not any(tm.contains(g, lambda t: isinstance(t, T) and t.op == "except") for g in e.guard) for e in tr) and any(
-        c[0] == B58 + "base58check_decode" for c in s.calls), "is_base58check answers True without a successful checksum decode")
+    leaves = rules.leaf_returns(s)
+    okbool = bool(leaves) and all(isinstance(l.value, bool) or (isinstance(l.value, T) and l.value.ty == tm.BOOL) for l in leaves)
+    R.check("C07.4", "EXC", fi, "is_base58check returns booleans", okbool, "is_base58check returns %s" % sorted({tm.show(l.value)[:60] for l in leaves}))
+    okt, n_true = True, 0
+    for l in leaves:
+        if l.value is True:
+            n_true += 1
+            okt = okt and any(any(tm.veq(f, q) for q in eq_forms) for f in l.facts) and not any(isinstance(f, T) and f.op == "except" for f in l.facts)
+        elif isinstance(l.value, T):  # the verdict is a boolean term: it must be the checksum comparison itself
+            n_true += 1
+            okt = okt and any(tm.veq(l.value, q) for q in eq_forms) and not any(isinstance(f, T) and f.op == "except" for f in l.facts)
+    R.check("C07.4", "DOM", fi, "True only when the last four decoded bytes equal SHA256d(payload)[:4]", okt and n_true >= 1,
+            "is_base58check answers True without the checksum comparison holding", example="a string with a corrupted checksum")
